@@ -42,14 +42,16 @@ class World:
         r = run.rng
         shutil.rmtree(base, ignore_errors=True)
         os.makedirs(os.path.join(base, "txns", "sub"))
-        g = J.Gen(r, max_depth=3, n_accounts=r.randint(3, 8))
-        n = r.randint(60, 120) if big else r.randint(2, 6)
+        self.only_exports = (big == "wide-exports")
+        wide = big in ("wide", "wide-exports")           # many accounts: every output, the equity export included, exceeds one 8 KiB buffer
+        g = J.Gen(r, max_depth=3, n_accounts=(400 if wide else r.randint(3, 8)))
+        n = 260 if wide else (r.randint(60, 120) if big else r.randint(2, 6))
         ts = g.journal(n, prices=False, meta=True, implicit_p=0.2)
         half = len(ts) // 2
         open(os.path.join(base, "txns", "a.txn"), "w").write(J.print_journal(ts[:half] or ts))
         open(os.path.join(base, "txns", "sub", "b.txn"), "w").write(J.print_journal(ts[half:] or ts))
         open(os.path.join(base, "all.txn"), "w").write(J.print_journal(ts))
-        toml = J.make_toml(targets='"balance", "balance-group", "register"', exports='"equity", "identity"',
+        toml = J.make_toml(targets=('' if self.only_exports else '"balance", "balance-group", "register"'), exports='"equity", "identity"',
                            group_by=r.choice(["month", "date", "year"]))
         if kind == "git":
             toml = toml.replace('input = { storage = "fs", fs = { dir = "txns", suffix = "txn" } }',
@@ -68,17 +70,26 @@ class World:
         if kind == "file":
             self.args0 += ["--input.file", os.path.join(base, "all.txn")]
 
-    def run(self, outname, limit=None, pre=None):
+    def run(self, outname, limit=None, pre=None, links=None):
         out = os.path.join(self.base, outname)
         shutil.rmtree(out, ignore_errors=True)
+        shutil.rmtree(out + "-outside", ignore_errors=True)
         os.makedirs(out)
         for suf, content in (pre or {}).items():
             open(os.path.join(out, "r." + suf), "w").write(content)
+        for suf in (links or []):
+            # a destination name occupied by a symbolic link whose target does not exist
+            os.makedirs(out + "-outside", exist_ok=True)      # the directory exists, the target file does not
+            os.symlink(os.path.join(out + "-outside", "target." + suf), os.path.join(out, "r." + suf))
         rc, so, se = run_cli(self.args0 + ["--output.dir", out, "--output.prefix", "r"], fsize_limit=limit)
         files = {}
         for f in sorted(os.listdir(out)):
-            files[f] = open(os.path.join(out, f), "rb").read()
+            fp = os.path.join(out, f)
+            files[f] = b"<dangling symlink>" if (os.path.islink(fp) and not os.path.exists(fp)) else open(fp, "rb").read()
+        if links:
+            files["<outside>"] = ",".join(sorted(os.listdir(out + "-outside"))).encode() if os.path.isdir(out + "-outside") else b""
         shutil.rmtree(out, ignore_errors=True)
+        shutil.rmtree(out + "-outside", ignore_errors=True)
         return rc, so, se, files
 
 
@@ -91,7 +102,8 @@ def main(run):
     findings = [f for f in load_findings("C14") if f.get("status") == "open"]
     terms, tmeta = [], []
     distinct = set()
-    kinds = [("fs", False), ("file", True), ("git", False)] if quick else [("fs", False), ("fs", True), ("file", True), ("git", True), ("git", False)]
+    kinds = [("fs", False), ("file", True), ("git", False), ("fs", "wide"), ("fs", "wide-exports")] if quick else \
+            [("fs", False), ("fs", True), ("file", True), ("git", True), ("git", False), ("fs", "wide"), ("file", "wide"), ("file", "wide-exports")]
     try:
         for wi, (kind, big) in enumerate(kinds):
             w = World(os.path.join(root, "w%d" % wi), run, kind, big)
@@ -99,10 +111,11 @@ def main(run):
             rc, so, se, files = w.run("out-base")
             if rc != 0:
                 raise Infra("baseline run failed: rc=%s %s" % (rc, se[-500:]))
-            expected = {s: files.get("r." + s) for s in SUFFIXES}
+            SUFS = [x for x in SUFFIXES if not (w.only_exports and x.endswith(".txt"))]     # destinations of this world, in writing order
+            expected = {s: files.get("r." + s) for s in SUFS}
             if any(v is None for v in expected.values()):
                 raise Infra("baseline run did not produce all outputs: %s" % sorted(files))
-            sizes = [len(expected[s]) for s in SUFFIXES]
+            sizes = [len(expected[s]) for s in SUFS]
             # ---- write failures at byte offset N of every destination (RLIMIT_FSIZE = N)
             offs = set([0, 1, 2, 7, 100, 4095, 4096, 4097, 8191, 8192, 8193, 16384])
             for L in sizes:
@@ -122,8 +135,8 @@ def main(run):
             for N, (rc, so, se, files) in results:
                 run.cov["evaluations"] += 1
                 ann = announced(so)
-                complete = {s: files.get("r." + s) == expected[s] for s in SUFFIXES}
-                obs = (rc == 0, tuple(a for a, _ in ann), tuple(complete[s] for s in SUFFIXES))
+                complete = {s: files.get("r." + s) == expected[s] for s in SUFS}
+                obs = (rc == 0, tuple(a for a, _ in ann), tuple(complete[s] for s in SUFS))
                 distinct.add((kind,) + obs)
                 what = None
                 if rc == 0 and not all(complete[s] for s, _ in ann):
@@ -135,13 +148,13 @@ def main(run):
                 bad_ann = [s for s, _ in ann if not complete[s]]
                 if what is None and bad_ann:
                     what = "an output was announced although its file is incomplete (%s)" % bad_ann
-                extra_files = [f for f in files if f not in ["r." + s for s in SUFFIXES]]
+                extra_files = [f for f in files if f not in ["r." + s for s in SUFS]]
                 if what is None and extra_files:
                     what = "files other than the destinations were created: %s" % extra_files
                 if what:
                     rep = {"input_storage": kind, "write_fails_at_byte": N, "how": "RLIMIT_FSIZE=%d with SIGXFSZ ignored" % N,
                            "exit_status": rc, "announced": [a for a, _ in ann], "sizes_on_disk": {f: len(b) for f, b in files.items()},
-                           "expected_sizes": dict(zip(SUFFIXES, sizes)), "config": open(os.path.join(w.base, "tackler.toml")).read(),
+                           "expected_sizes": dict(zip(SUFS, sizes)), "config": open(os.path.join(w.base, "tackler.toml")).read(),
                            "journal": open(os.path.join(w.base, "all.txn")).read()[:3000], "stderr": se[-300:]}
                     kf = [f for f in findings if f.get("class") == "unflushed_bufwriter"]
                     if kf and rc == 0:
@@ -149,20 +162,20 @@ def main(run):
                     else:
                         run.violation(what, rep)
                 terms.append("c14_case %s %s %s %s %s" % (g_list([g_nat(x) for x in sizes]), g_nat(N), g_bool(rc == 0),
-                                                         g_list([g_nat(SUFFIXES.index(a)) for a, _ in ann]),
-                                                         g_list([g_bool(complete[s]) for s in SUFFIXES])))
+                                                         g_list([g_nat(SUFS.index(a)) for a, _ in ann]),
+                                                         g_list([g_bool(complete[s]) for s in SUFS])))
                 tmeta.append((kind, N, sizes))
                 if len(run.cov["samples"]) < 3 and N in (0, sizes[0]):
                     run.cov["samples"].append({"input_storage": kind, "fail_at_byte": N, "exit": rc, "announced": [a for a, _ in ann],
-                                               "complete": complete, "sizes": dict(zip(SUFFIXES, sizes))})
+                                               "complete": complete, "sizes": dict(zip(SUFS, sizes))})
             # ---- pre-existing destinations: every non-empty subset
-            subsets = [c for k in range(1, len(SUFFIXES) + 1) for c in itertools.combinations(SUFFIXES, k)]
+            subsets = [c for k in range(1, len(SUFS) + 1) for c in itertools.combinations(SUFS, k)]
             if quick and wi > 0:
-                subsets = run.rng.sample(subsets, 8)
+                subsets = run.rng.sample(subsets, min(8, len(subsets)))
 
             def pre_one(sub):
                 pre = {s: "SENTINEL %s\n" % s for s in sub}
-                return sub, w.run("out-p" + "".join(str(SUFFIXES.index(s)) for s in sub), pre=pre)
+                return sub, w.run("out-p" + "".join(str(SUFS.index(s)) for s in sub), pre=pre)
 
             with ThreadPoolExecutor(max_workers=NPROC) as ex:
                 presults = list(ex.map(pre_one, subsets))
@@ -174,6 +187,21 @@ def main(run):
                     run.violation("an existing destination was overwritten/truncated, or the run succeeded although a destination existed",
                                   {"input_storage": kind, "pre_existing": list(sub), "changed": bad, "exit_status": rc,
                                    "announced": announced(so), "config": open(os.path.join(w.base, "tackler.toml")).read()})
+            # ---- a destination name occupied by a dangling symbolic link: the run must fail, the link must stay,
+            #      and nothing may be created through it
+            link_sets = [[s_] for s_ in SUFS] + [list(SUFS)]
+            if quick and wi > 0:
+                link_sets = run.rng.sample(link_sets, min(2, len(link_sets)))
+            for ls in link_sets:
+                rc, so, se, files = w.run("out-l" + "".join(str(SUFS.index(x)) for x in ls), links=ls)
+                run.cov["evaluations"] += 1
+                distinct.add((kind, "link", tuple(ls), rc == 0))
+                through = files.get("<outside>", b"")
+                replaced = [x for x in ls if files.get("r." + x) != b"<dangling symlink>"]
+                if rc == 0 or through or replaced:
+                    run.violation("a destination occupied by a dangling symbolic link was written through or replaced, or the run reported success",
+                                  {"input_storage": kind, "dangling_links_at": ls, "exit_status": rc, "created_outside_output_dir": through.decode(),
+                                   "links_replaced": replaced, "announced": announced(so)})
             # ---- inputs, configuration and repository are only read
             after = tree_digest(w.base)
             if before != after:
@@ -193,7 +221,7 @@ def main(run):
             run.cov["disagreements_checked"] += 1
             run.violation("correspondence broken: Output.run_targets predicts a different outcome than the CLI under a write failure",
                           {"correspondence": "C14_corr.c14_case", "input_storage": kind, "write_fails_at_byte": N,
-                           "content_sizes": dict(zip(SUFFIXES, sizes))}, found_input=False)
+                           "content_sizes": sizes}, found_input=False)
     run.cov["distinct_nontrivial"] = len(distinct)
     run.cov["rule"] = ("tackler CLI built from /repo, 3 input storages (fs, single file, git), 5 destinations; write failure at byte offset N of "
                        "every destination via RLIMIT_FSIZE=N (SIGXFSZ ignored): boundary offsets (0,1,sizes+-1,buffer multiples) + random "
